@@ -94,6 +94,7 @@ type Machine struct {
 	pendingEnd   *pathEnd
 	pendingPanic *targetPanic
 	mutexes      map[*Value]*mutexState
+	conds        map[*Value]*condState
 	wgs          map[*Value]*wgState
 	intrCache    map[*ssa.Function]intrinsicFn
 
@@ -165,6 +166,7 @@ func (m *Machine) resetPath(prefix []Decision) {
 	m.pendingEnd = nil
 	m.pendingPanic = nil
 	m.mutexes = map[*Value]*mutexState{}
+	m.conds = nil
 	m.wgs = map[*Value]*wgState{}
 	m.divCache = map[string][2]*sym.Term{}
 	m.poolPuts = map[*Value]int{}
